@@ -8,6 +8,7 @@ that are uninterpreted functions (A-models).  The temperature solves of the mixt
 already satisfies the equation, or they *raise* (driven by the configuration) which exercises the
 `except` fall-back branches of the setters and of `mix_from`.
 """
+import os
 import thermosteam as tmo
 from engine.api import group
 from engine.sx import tmo_world as W
@@ -17,6 +18,8 @@ B = ('Ethanol', 'Water')
 A3 = ('Water', 'Ethanol', 'Octane')
 W.preload([A, B, A3])
 PKG = {'A': A, 'B': B, 'A3': A3}
+# VCs here are nonlinear ((sum n_k/N * h_k) * N = sum n_k * h_k): try a fresh one-shot solver first (engine opt-in, same verdicts)
+os.environ.setdefault('VERIF_PROVE_FRESH_MS', '5000')
 
 
 class SolveFailed(RuntimeError):
@@ -334,7 +337,9 @@ def sep_configs(tier):
         for eb in [True, False]:
             if not eb and quick and (r, o) not in (('l', ('l', 'B')), ('gl', ('l', 'A'))):
                 continue
-            out.append({'name': f'self={r};other={o[0]}{o[1]};eb={eb}', 'self': r, 'other': list(o), 'eb': eb})
+            for sm, om in ([('pos+maybe', 'pos')] if quick or not eb else [('pos+maybe', 'pos'), ('pos+pos', 'pos+maybe')]):
+                out.append({'name': f'self={r}:{sm};other={o[0]}{o[1]}:{om};eb={eb}', 'self': r, 'other': list(o), 'eb': eb,
+                            'smode': sm, 'omode': om})
     return out
 
 
@@ -353,8 +358,8 @@ def separate_out(w, cfg):
         return stubs[pkg][0]
 
     skind, (okind, opkg) = cfg['self'], cfg['other']
-    s, sl = W.stream_on(w, 's', th('A'), KINDS[skind], present=_present('A', KINDS[skind], 'pos+pos'))
-    o, ol = W.stream_on(w, 'o', th(opkg), KINDS[okind], present=_present(opkg, KINDS[okind], 'pos+maybe'))
+    s, sl = W.stream_on(w, 's', th('A'), KINDS[skind], present=_present('A', KINDS[skind], cfg['smode']))
+    o, ol = W.stream_on(w, 'o', th(opkg), KINDS[okind], present=_present(opkg, KINDS[okind], cfg['omode']))
     # requires (non-empty remainder, no negative flows): the other stream holds less of every chemical, phase by phase
     # where the phase exists in `s`, else in total
     st, ot = W.total_by_CAS(s), W.total_by_CAS(o)
